@@ -31,7 +31,7 @@ META = {
                   "agreement demanded between AD frameworks. Gradients use real inputs only (complex-gradient conventions differ between "
                   "frameworks by design). TensorFlow is not installed. The multi_dispatch branch taken is inferred from the interface of the "
                   "arguments, not instrumented.",
-    "shards": {"quick": 2, "thorough": 16},
+    "shards": {"quick": 3, "thorough": 16},
     "budget_s": {"quick": 110, "thorough": 300},
     "min_evals": {"quick": 1000, "thorough": 6000},
     "min_nontrivial": {"quick": 100, "thorough": 600},
@@ -474,7 +474,7 @@ def run(ctx):
         """Soft budget counted from the end of the imports (under load importing pennylane+jax+torch alone can take > 100 s)."""
         return (_time.monotonic() - _t0 < ctx.budget_s) or ctx.more()
 
-    N = ctx.n(4, 160)
+    N = ctx.n(3, 160)
     for it in range(N):
         if not more():
             break
